@@ -2,7 +2,7 @@
   C01 — Symbolic tree integrity. Property theorems only (model: PgModel/Sym*.lean,
   lemmas: PgProofs/Sym*.lean).
 -/
-import PgProofs.SymStepInv
+import PgProofs.SymFree
 namespace Pg.Sym
 
 example : (Forest.empty).wf = true := by decide
@@ -22,8 +22,8 @@ forest, target, key / index / slice / rank list, offered value (plain nested val
 nodes that are moved or copied, Refs), notification on or off — maps a forest in which every
 non-root node believes its actual parent and path to such a forest. (No admissibility hypothesis
 is needed for this half of the invariant; uniqueness of node objects is the other half.) -/
-theorem C01_step_cfg {lcs nb : Bool} {scp : Option Bool} (f : Forest) (n : Bool) (op : Op) (hf : f.ok = true) :
-    (stepA (Cfg.fixedWith lcs nb scp) f n op).forest.ok = true := by
+theorem C01_step_cfg {lcs nb : Bool} {scp : Option Bool} {sat : Bool} (f : Forest) (n : Bool) (op : Op) (hf : f.ok = true) :
+    (stepA (Cfg.fixedWith lcs nb scp sat) f n op).forest.ok = true := by
   unfold stepA
   split
   · exact hf
@@ -34,7 +34,7 @@ theorem C01_step_cfg {lcs nb : Bool} {scp : Option Bool} (f : Forest) (n : Bool)
     cases v with
     | node kind sl aw pt items =>
       simp only [step]
-      have hv := evalVE_spec (Cfg.fixedWith lcs nb scp) none (.node kind sl aw pt items) f none false false [] hf
+      have hv := evalVE_spec (Cfg.fixedWith lcs nb scp sat) none (.node kind sl aw pt items) f none false false [] hf
       exact addRoot_ok _ _ (ok_of_subset hf hv.2) (okRoot_of_okAt hv.1)
     | atom a => simp only [step]; exact hf
     | fresh => simp only [step]; exact hf
@@ -131,10 +131,13 @@ theorem C01_step_cfg {lcs nb : Bool} {scp : Option Bool} (f : Forest) (n : Bool)
           · split
             · exact hf
             · next start stop stp hidx =>
-              have hp0 := slicePrepare_ok (lcs := lcs) (nb := nb) (sp := scp) m vs f 0 hf
+              split
+              · exact hf
+              have hp0 := slicePrepare_ok (lcs := lcs) (nb := nb) (sp := scp) (sat := sat) m
+                (sliceIx (Cfg.fixedWith lcs nb scp sat) start stp) vs f 0 hf
               have run_ok : ∀ (st sp : Int) (repl : List (Bool × VE)),
-                  (match sliceLoop (Cfg.fixedWith lcs nb scp) t st sp (slicePrepare (Cfg.fixedWith lcs nb scp) m f 0 vs).1 0 repl false with
-                    | .error e => (⟨(slicePrepare (Cfg.fixedWith lcs nb scp) m f 0 vs).1, .err e⟩ : Res)
+                  (match sliceLoop (Cfg.fixedWith lcs nb scp sat) t st sp (slicePrepare (Cfg.fixedWith lcs nb scp sat) m (sliceIx (Cfg.fixedWith lcs nb scp sat) start stp) f 0 vs).1 0 repl false with
+                    | .error e => (⟨(slicePrepare (Cfg.fixedWith lcs nb scp sat) m (sliceIx (Cfg.fixedWith lcs nb scp sat) start stp) f 0 vs).1, .err e⟩ : Res)
                     | .ok (f', upd) => ⟨if (n && upd) = true then notify f' [m.id] else f', .ok⟩).forest.ok = true := by
                 intro st sp repl
                 split
@@ -326,7 +329,7 @@ theorem C01_step_cfg {lcs nb : Bool} {scp : Option Bool} (f : Forest) (n : Bool)
           · exact hf
           · next k c hlast =>
             have h1 : ((f.mapAt t (fun _ xs => eraseKey k xs)).addRoot
-                (if (Cfg.fixedWith lcs nb scp).detachOnRemove = true then detachFrom .dict c else c)).ok = true := by
+                (if (Cfg.fixedWith lcs nb scp sat).detachOnRemove = true then detachFrom .dict c else c)).ok = true := by
               apply addRoot_ok _ _ (mapAt_ok f t _ (erase_local t k) hf)
               simp only [Cfg.fixedWith, if_true]
               have hmem : (k, c) ∈ its := List.mem_of_getLast? hlast
@@ -352,38 +355,45 @@ theorem C01_step_cfg {lcs nb : Bool} {scp : Option Bool} (f : Forest) (n : Bool)
 /-- … in particular on the patched tree … -/
 theorem C01_step (f : Forest) (n : Bool) (op : Op) (hf : f.ok = true) :
     (stepA Cfg.patched f n op).forest.ok = true :=
-  C01_step_cfg (lcs := true) (nb := true) (scp := none) f n op hf
+  C01_step_cfg (lcs := true) (nb := true) (scp := none) (sat := false) f n op hf
 
 /-- … and for a call that runs inside `with pg.allow_partial(b):` (configurations with a scope). -/
 theorem C01_step_scoped (b : Bool) (f : Forest) (n : Bool) (op : Op) (hf : f.ok = true) :
     (stepA { Cfg.patched with scopePartial := some b } f n op).forest.ok = true :=
-  C01_step_cfg (lcs := true) (nb := true) (scp := some b) f n op hf
+  C01_step_cfg (lcs := true) (nb := true) (scp := some b) (sat := false) f n op hf
 
-/-- **C01, full step theorem**: on the patched tree every operation maps a well-formed forest
-(beliefs agree with positions, node ids distinct and below the counter, list keys are the
-positions, dict / object keys distinct, no node object in two places) to a well-formed forest.
-Hypotheses: the call is a well-formed *encoding* (`wellKeyed`: a dict literal has distinct keys —
-Python cannot write anything else), and the model did not have to put one node object in two
-places during the call (the decidable mark `aliased`, reported by the driver after every step and
-never set in any run against the real code; with F79 unpatched `l.insert(0, l[0])` sets it, see
-`C01_counterexample_F79`). No admissibility hypothesis: a diverging call (F30) has no after-state
-(`stepA` leaves the forest alone). -/
-theorem C01_step_Full_cfg {lcs nb : Bool} {scp : Option Bool} (f : Forest) (n : Bool) (op : Op) (hf : f.wf = true)
-    (hk : wellKeyed op = true) (hal : (stepA (Cfg.fixedWith lcs nb scp) f n op).forest.aliased = false) :
-    (stepA (Cfg.fixedWith lcs nb scp) f n op).forest.wf = true := by
+/-- **No aliasing**: from a well-formed forest, no call on a tree with the belief fixes ever has
+to put one node object in two places (the model's mark `aliased` stays false). The only way to
+set the mark is to offer an existing non-root node that already believes to be at the
+destination; in a well-formed forest that node *is* the occupant of the destination slot, and
+every write primitive catches that case first: the identity test `old_value is value`
+(replacement, dict store), the copy of an own element (insertion, F79), the absence of an
+occupant (append), "returned as it is" (first pass of a slice assignment). -/
+theorem C01_no_alias {lcs nb : Bool} {scp : Option Bool} {sat : Bool} (f : Forest) (n : Bool) (op : Op) (hf : f.wf = true)
+    (hk : wellKeyed op = true) : (stepA (Cfg.fixedWith lcs nb scp sat) f n op).forest.aliased = false :=
+  stepA_unal f n op hf hk
+
+/-- **C01, full step theorem**: on every tree with the belief fixes (in particular the patched
+tree) every operation maps a well-formed forest (beliefs agree with positions, node ids distinct
+and below the counter, list keys are the positions, dict / object keys distinct, no node object in
+two places, nothing in flight) to a well-formed forest. The only hypothesis besides `wf` is that
+the call is a well-formed *encoding* (`wellKeyed`: a dict literal has distinct keys — Python
+cannot write anything else). No admissibility hypothesis: a diverging call (F30) has no
+after-state (`stepA` leaves the forest alone). -/
+theorem C01_step_Full_cfg {lcs nb : Bool} {scp : Option Bool} {sat : Bool} (f : Forest) (n : Bool) (op : Op) (hf : f.wf = true)
+    (hk : wellKeyed op = true) : (stepA (Cfg.fixedWith lcs nb scp sat) f n op).forest.wf = true := by
+  have hal := C01_no_alias (lcs := lcs) (nb := nb) (scp := scp) (sat := sat) f n op hf hk
   rw [wf_iff] at hf ⊢
   exact ⟨C01_step_cfg f n op hf.1, stepA_inv _ f n op hf.2.1 hk hal, hal, stepA_pool _ f n op hf.2.2.2⟩
 
-theorem C01_step_Full (f : Forest) (n : Bool) (op : Op) (hf : f.wf = true) (hk : wellKeyed op = true)
-    (hal : (stepA Cfg.patched f n op).forest.aliased = false) :
+theorem C01_step_Full (f : Forest) (n : Bool) (op : Op) (hf : f.wf = true) (hk : wellKeyed op = true) :
     (stepA Cfg.patched f n op).forest.wf = true :=
-  C01_step_Full_cfg (lcs := true) (nb := true) (scp := none) f n op hf hk hal
+  C01_step_Full_cfg (lcs := true) (nb := true) (scp := none) (sat := false) f n op hf hk
 
 /-- the full invariant for a call inside `with pg.allow_partial(b):`. -/
-theorem C01_step_Full_scoped (b : Bool) (f : Forest) (n : Bool) (op : Op) (hf : f.wf = true) (hk : wellKeyed op = true)
-    (hal : (stepA { Cfg.patched with scopePartial := some b } f n op).forest.aliased = false) :
+theorem C01_step_Full_scoped (b : Bool) (f : Forest) (n : Bool) (op : Op) (hf : f.wf = true) (hk : wellKeyed op = true) :
     (stepA { Cfg.patched with scopePartial := some b } f n op).forest.wf = true :=
-  C01_step_Full_cfg (lcs := true) (nb := true) (scp := some b) f n op hf hk hal
+  C01_step_Full_cfg (lcs := true) (nb := true) (scp := some b) (sat := false) f n op hf hk
 
 /-- the representation half (ids distinct and bounded, key shapes) needs none of the fixes: it is
 preserved by every operation on *every* configuration of the tree — the defects F02 / F03 / F78 /
@@ -404,8 +414,8 @@ same holds after every operation of `ValueFree` — in particular the values tha
 `remove`, `clear`, `popitem` and slice deletion take out of a container become roots of the
 forest whose believed parent is none (and they are gone from the payload: `dropAll`,
 `rawDelList`, `rawDelMany`, `eraseKey`). -/
-theorem C01_removed_detached_cfg {lcs nb : Bool} {scp : Option Bool} (f : Forest) (n : Bool) (op : Op) (hf : f.rootsFree = true) (hp : ValueFree op = true) :
-    (stepA (Cfg.fixedWith lcs nb scp) f n op).forest.rootsFree = true := by
+theorem C01_removed_detached_cfg {lcs nb : Bool} {scp : Option Bool} {sat : Bool} (f : Forest) (n : Bool) (op : Op) (hf : f.rootsFree = true) (hp : ValueFree op = true) :
+    (stepA (Cfg.fixedWith lcs nb scp sat) f n op).forest.rootsFree = true := by
   unfold stepA
   split
   · exact hf
@@ -555,7 +565,7 @@ theorem C01_removed_detached_cfg {lcs nb : Bool} {scp : Option Bool} (f : Forest
           · exact hf
           · next k c hlast =>
             have h1 : ((f.mapAt t (fun _ xs => eraseKey k xs)).addRoot
-                (if (Cfg.fixedWith lcs nb scp).detachOnRemove = true then detachFrom .dict c else c)).rootsFree = true := by
+                (if (Cfg.fixedWith lcs nb scp sat).detachOnRemove = true then detachFrom .dict c else c)).rootsFree = true := by
               apply addRoot_free _ _ (mapAt_free f t _ hf)
               simp only [Cfg.fixedWith, if_true]
               exact detachFrom_parentless _ _
@@ -578,7 +588,30 @@ theorem C01_removed_detached_cfg {lcs nb : Bool} {scp : Option Bool} (f : Forest
 
 theorem C01_removed_detached (f : Forest) (n : Bool) (op : Op) (hf : f.rootsFree = true) (hp : ValueFree op = true) :
     (stepA Cfg.patched f n op).forest.rootsFree = true :=
-  C01_removed_detached_cfg (lcs := true) (nb := true) (scp := none) f n op hf hp
+  C01_removed_detached_cfg (lcs := true) (nb := true) (scp := none) (sat := false) f n op hf hp
+
+/-- a slice assignment `l[a:b:c] = values`. -/
+def IsSliceAssign : Op → Bool
+  | .lSetSlice _ _ _ _ _ => true
+  | _ => false
+
+/-- **No tree outside claims to be inside** — for the whole surface but one entry point: if no
+root reports a parent before a call, none does after it, for every operation (value-free or
+value-offering, successful or rejected) except a slice assignment, on every tree with the belief
+fixes. The exception is real: F225 (`C01_counterexample_F225`), repaired by
+fixes/C01-F225.patch (`C01_fixed_F225`). -/
+theorem C01_roots_parentless {lcs nb : Bool} {scp : Option Bool} {sat : Bool} (f : Forest) (n : Bool) (op : Op)
+    (hf : f.rootsFree = true) (hs : IsSliceAssign op = false) :
+    (stepA (Cfg.fixedWith lcs nb scp sat) f n op).forest.rootsFree = true := by
+  by_cases hv : ValueFree op = true
+  · exact C01_removed_detached_cfg f n op hf hv
+  · have ho : Offering op = true := by
+      cases op <;> simp [ValueFree] at hv <;> simp [IsSliceAssign] at hs <;> rfl
+    unfold stepA
+    split
+    · exact hf
+    · unfold stepN
+      exact normalizeRoots_free _ _ _ (step_free_offering f n op hf ho)
 
 /-! ## Histories -/
 
@@ -602,31 +635,26 @@ theorem C01_reachable (hist : List (Bool × Op)) : (runHist Cfg.patched Forest.e
   C01_history_final hist Forest.empty (by decide)
 
 theorem C01_history_Full_final (hist : List (Bool × Op)) : ∀ (f : Forest), f.wf = true →
-    (∀ s ∈ hist, wellKeyed s.2 = true) → (runHist Cfg.patched f hist).aliased = false →
-    (runHist Cfg.patched f hist).wf = true := by
+    (∀ s ∈ hist, wellKeyed s.2 = true) → (runHist Cfg.patched f hist).wf = true := by
   induction hist with
-  | nil => intro f hf _ _; exact hf
+  | nil => intro f hf _; exact hf
   | cons s rest ih =>
-    intro f hf hk hal
+    intro f hf hk
     obtain ⟨n, op⟩ := s
-    simp only [runHist] at hal ⊢
-    have hal1 := unal_of_rise (runHist_rise Cfg.patched rest _) hal
-    exact ih _ (C01_step_Full f n op hf (hk (n, op) (by simp)) hal1) (fun s hs => hk s (by simp [hs])) hal
+    simp only [runHist]
+    exact ih _ (C01_step_Full f n op hf (hk (n, op) (by simp))) (fun s hs => hk s (by simp [hs]))
 
-/-- **C01 over histories, full invariant**: if the state at the end of a history does not carry
-the mark `aliased` (the mark is never cleared), then *every* state on the way — every prefix —
-is well-formed, from every well-formed start. -/
+/-- **C01 over histories, full invariant**: every state on the way — every prefix of every
+history of (well-keyed) calls — is well-formed, from every well-formed start. -/
 theorem C01_history_Full (f : Forest) (hist : List (Bool × Op)) (hf : f.wf = true)
-    (hk : ∀ s ∈ hist, wellKeyed s.2 = true) (hal : (runHist Cfg.patched f hist).aliased = false) (k : Nat) :
+    (hk : ∀ s ∈ hist, wellKeyed s.2 = true) (k : Nat) :
     (runHist Cfg.patched f (hist.take k)).wf = true :=
   C01_history_Full_final (hist.take k) f hf (fun s hs => hk s (List.mem_of_mem_take hs))
-    (runHist_prefix_unal Cfg.patched f hist k hal)
 
 /-- … in particular everything a program can build from nothing. -/
-theorem C01_reachable_Full (hist : List (Bool × Op)) (hk : ∀ s ∈ hist, wellKeyed s.2 = true)
-    (hal : (runHist Cfg.patched Forest.empty hist).aliased = false) :
+theorem C01_reachable_Full (hist : List (Bool × Op)) (hk : ∀ s ∈ hist, wellKeyed s.2 = true) :
     (runHist Cfg.patched Forest.empty hist).wf = true :=
-  C01_history_Full_final hist Forest.empty (by decide) hk hal
+  C01_history_Full_final hist Forest.empty (by decide) hk
 
 /-- the empty forest is well-formed (base case). -/
 theorem C01_empty : Forest.empty.wf = true := by decide
@@ -722,6 +750,37 @@ theorem C01_fixed_F78 :
     let f := (stepA Cfg.patched fList true (.delItem 0 (.i 0))).forest
     divergent f (.setItem 1 (.s 0) (.ref 0)) = false ∧
       (stepA Cfg.patched f true (.setItem 1 (.s 0) (.ref 0))).forest.wf = true := by decide
+
+/-- F225: `l = pg.List([1, 2]); x = pg.Dict(); l[1:2] = [x]`. On the tree as it is the value is
+formalized for index 0 and then stored at position 1: a copy goes into the list, and `x` stays a
+root that claims `l` as its parent (the state is still `wf`: nothing is demanded of the beliefs
+of a root — which is why `rootsFree` is a separate theorem, and why it is false here). With the
+fix (`sliceAtTarget`) `x` itself is stored and no root claims a parent. -/
+def fSlice : Forest :=
+  (stepA Cfg.patched (stepA Cfg.patched Forest.empty true (.new (veList [.atom (.int 1), .atom (.int 2)]))).forest
+    true (.new (veDict []))).forest
+
+def cfgF225 : Cfg := Cfg.fixedWith true true none true
+
+theorem C01_counterexample_F225 :
+    fSlice.rootsFree = true ∧
+    (stepA Cfg.patched fSlice true (.lSetSlice 0 (some 1) (some 2) none [.ref 1])).forest.rootsFree = false ∧
+    ((stepA Cfg.patched fSlice true (.lSetSlice 0 (some 1) (some 2) none [.ref 1])).forest.roots.length = 2) := by
+  decide
+
+/-- … also a rejected extended-slice assignment (`l[0:2:2] = [x, 3]`, ValueError) leaves `x` in
+that state. -/
+theorem C01_counterexample_F225_rejected :
+    (stepA Cfg.patched fSlice true (.lSetSlice 0 (some 0) (some 2) (some 2) [.ref 1, .atom (.int 3)])).out = .err .value ∧
+    (stepA Cfg.patched fSlice true (.lSetSlice 0 (some 0) (some 2) (some 2) [.ref 1, .atom (.int 3)])).forest.rootsFree = false := by
+  decide
+
+theorem C01_fixed_F225 :
+    (stepA cfgF225 fSlice true (.lSetSlice 0 (some 1) (some 2) none [.ref 1])).forest.rootsFree = true ∧
+    (stepA cfgF225 fSlice true (.lSetSlice 0 (some 1) (some 2) none [.ref 1])).forest.roots.length = 1 ∧
+    (stepA cfgF225 fSlice true (.lSetSlice 0 (some 1) (some 2) none [.ref 1])).forest.wf = true ∧
+    (stepA cfgF225 fSlice true (.lSetSlice 0 (some 0) (some 2) (some 2) [.ref 1, .atom (.int 3)])).forest.rootsFree = true := by
+  decide
 
 /-- F30 (known): `d = pg.Dict(k0=pg.Dict()); d.k0.k1 = d` — the model has no after-state. -/
 def fNest : Forest := (stepA Cfg.patched Forest.empty true (.new (veDict [(.s 0, veDict [])]))).forest
